@@ -926,6 +926,12 @@ func Run(c *ev.Ctx) int {
 			run(func() { laneListBuckets(c, id, seed) })
 		}
 	}
+	ra := c.Rng("acl")
+	for i := 0; i < c.Pick(6, 60); i++ {
+		id := fmt.Sprintf("A/acl/%d", i)
+		seed := ra.Int63n(1 << 40)
+		run(func() { laneACL(c, id, seed) })
+	}
 	for _, no := range []bool{false, true} {
 		no := no
 		if c.Want("D") {
@@ -955,5 +961,5 @@ func Run(c *ev.Ctx) int {
 			}
 		}
 	}
-	return c.Finish("lane N: generated bucket names vs the core naming rules (direct IsValidBucketName + real CreateBucket); lane S: random put/delete/get programs per bucket setting on two gateways with restart, create-on-existing by three callers with byte-exact snapshots, ListBuckets prefix/max-buckets/continuation chains for three owners; lane D: DeleteBucket held at each of its hook points against PutObject/CompleteMultipartUpload/CreateMultipartUpload/CreateBucket and the converse, same/other process, both temp-file strategies; stress; distinct = judged classes per lane", 40)
+	return c.Finish("lane N: generated bucket names vs the core naming rules (direct IsValidBucketName + real CreateBucket); lane S: random put/delete/get programs per bucket setting on two gateways with restart, a bucket deleted and re-created by another account; lane A: random ACLs written as document / grant headers / canned ACL, read back as grant sets through two gateways and after restarts; create-on-existing by three callers with byte-exact snapshots, ListBuckets prefix/max-buckets/continuation chains for three owners; lane D: DeleteBucket held at each of its hook points against PutObject/CompleteMultipartUpload/CreateMultipartUpload/CreateBucket and the converse, same/other process, both temp-file strategies; stress; distinct = judged classes per lane", 40)
 }
